@@ -128,7 +128,7 @@ func vfC42FloorPow2(n int) int {
 // ---- generated ops ----------------------------------------------------------------------------------------------
 
 type vfC42Op struct {
-	Kind    int // 0 get, 1 mutate, 2 put, 3 gc / yield, 4 put followed by a relative get
+	Kind    int // 0 get, 1 mutate, 2 put, 3 gc / yield, 4 put followed by a relative get, 5 capacity-changing mutation + put + relative get
 	Pool    int // 0 ByteBuffer, 1 ByteSlicesBuf
 	LenMode int // 0 absolute, 1 relative to the capacity of the last put of that pool
 	Len     int // absolute length (mode 0)
@@ -173,15 +173,20 @@ func vfC42DrawOp(rt *rapid.T, concurrent bool) vfC42Op {
 	// rapid's integer generators are biased towards small values and the upper bound, so the kind is taken from a
 	// table indexed by r mod 16 (every residue is reachable from small r) instead of from contiguous ranges.
 	r := rapid.IntRange(0, 255).Draw(rt, "kind")
-	op.Kind = [16]int{4, 1, 0, 2, 0, 1, 2, 4, 0, 1, 2, 4, 0, 1, 2, 1}[r%16]
+	op.Kind = [16]int{4, 1, 0, 5, 2, 1, 5, 4, 0, 1, 2, 5, 0, 1, 2, 1}[r%16]
 	if r == 137 {
 		op.Kind = 3 // runtime.GC (sequential) / Gosched (concurrent): rare, a GC cycle costs as much as many cases
 	}
 	op.Pool = rapid.IntRange(0, 1).Draw(rt, "pool")
 	op.Slot = rapid.IntRange(0, 7).Draw(rt, "slot")
+	if op.Kind == 5 {
+		op.Mut = rapid.SampledFrom([]int{0, 3, 5, 4, 0, 3}).Draw(rt, "capmut")
+		op.A = rapid.IntRange(0, 1<<20).Draw(rt, "a")
+		op.B = rapid.IntRange(0, 1<<20).Draw(rt, "b")
+	}
 	switch op.Kind {
-	case 0, 4:
-		if op.Kind == 4 || rapid.IntRange(0, 1).Draw(rt, "rel") == 0 {
+	case 0, 4, 5:
+		if op.Kind >= 4 || rapid.IntRange(0, 1).Draw(rt, "rel") == 0 {
 			op.LenMode = 1
 			// 0,1,3,4 can be served by the buffer just put (3,4 only if its capacity is a power of two); the rest must not be
 			op.Rel = rapid.SampledFrom([]int{0, 0, 1, 1, 1, 2, 3, 4, 4, 5, 6, 7, 8}).Draw(rt, "relsel")
@@ -212,6 +217,8 @@ func (op vfC42Op) String() string {
 		return fmt.Sprintf("put %s#%d", pool, op.Slot)
 	case 4:
 		return fmt.Sprintf("put %s#%d+get rel%d", pool, op.Slot, op.Rel)
+	case 5:
+		return fmt.Sprintf("mut %s#%d %s(%d,%d)+put+get rel%d", pool, op.Slot, vfC42MutNames[op.Mut], op.A, op.B, op.Rel)
 	default:
 		return "gc"
 	}
@@ -361,12 +368,18 @@ func (a *vfC42Actor) step(i int, op vfC42Op) string {
 		return ""
 	default:
 		if op.Pool == 0 {
-			if !a.putBB(op.Slot) || op.Kind != 4 {
+			if op.Kind == 5 {
+				a.mutBB(op)
+			}
+			if !a.putBB(op.Slot) || op.Kind < 4 {
 				return ""
 			}
 			return a.getBB(i, a.resolveLen(op))
 		}
-		if !a.putBS(op.Slot) || op.Kind != 4 {
+		if op.Kind == 5 {
+			a.mutBS(op)
+		}
+		if !a.putBS(op.Slot) || op.Kind < 4 {
 			return ""
 		}
 		return a.getBS(i, a.resolveLen(op))
@@ -666,7 +679,7 @@ func TestVF_C42_Pools(t *testing.T) {
 	defer debug.SetMemoryLimit(debug.SetMemoryLimit(128 << 20))
 	opGen := rapid.Custom(func(rt *rapid.T) vfC42Op { return vfC42DrawOp(rt, false) })
 	vfCheck(t, "C42", func(rt *rapid.T, c *vfCase) string {
-		ops := rapid.SliceOfN(opGen, 4, 40).Draw(rt, "ops")
+		ops := rapid.SliceOfN(opGen, 10, 40).Draw(rt, "ops")
 		putRest := rapid.Bool().Draw(rt, "putRest")
 		c.Describe(vfC42Render(ops))
 		vfC42Drain()
@@ -710,7 +723,7 @@ func TestVF_C42_PoolsConcurrent(t *testing.T) {
 		scripts := make([][]vfC42Op, g)
 		var sb strings.Builder
 		for i := range scripts {
-			scripts[i] = rapid.SliceOfN(opGen, 4, 24).Draw(rt, fmt.Sprintf("ops%d", i))
+			scripts[i] = rapid.SliceOfN(opGen, 6, 24).Draw(rt, fmt.Sprintf("ops%d", i))
 			fmt.Fprintf(&sb, "[g%d: %s] ", i, vfC42Render(scripts[i]))
 		}
 		c.Describe("concurrent " + sb.String())
